@@ -266,3 +266,40 @@ Theorem C10_twosum_regular_components : forall m1 n1 M1 m2 n2 M2 r1 c2 M, wf_mat
   TuModel.regular_bf m1 n1 M1 = true /\ TuModel.regular_bf m2 n2 M2 = true.
 Proof. exact RegClosure.regular_bf_twosum_row_col_conv. Qed.
 Print Assumptions C10_twosum_regular_components.
+
+(* ---------- graphicness (as defined by certificates: GraphicClosure.GraphicP) is invariant under permutations (kind 1), under
+   adding / removing a zero, unit or duplicated line (kind 4), and hereditary for submatrices (kind 5): pendant edges, loops,
+   parallel edges, subdivision and contraction of tree edges (GraphicClosure.v).  What remains classical: the signed (network)
+   analogues ---------- *)
+From Cmr Require GraphicClosure.
+Theorem C10_graphic_permutation :
+    forall (m n : nat) (M : mat) (rp cp : list nat),
+    wf_mat m n M = true ->
+    is_binary M = true ->
+    RelModel.is_perm_l m rp = true ->
+    RelModel.is_perm_l n cp = true ->
+    GraphicClosure.GraphicP m n M <-> GraphicClosure.GraphicP m n (submat M rp cp).
+Proof. exact GraphicClosure.GraphicP_perm_iff. Qed.
+Print Assumptions C10_graphic_permutation.
+Theorem C10_graphic_reducible_line :
+    forall (m' n' : nat) (M' : mat) (isr : bool) (k : nat),
+    wf_mat m' n' M' = true ->
+    is_binary M' = true ->
+    (if isr then (k <? m')%nat else (k <? n')%nat) = true ->
+    RelModel.line_reducible false m' n' M' isr k = true ->
+    GraphicClosure.GraphicP m' n' M' <->
+    (if isr
+    then GraphicClosure.GraphicP (m' - 1) n' (submat M' (RelModel.keep_line m' k) (iota 0 n'))
+    else GraphicClosure.GraphicP m' (n' - 1) (submat M' (iota 0 m') (RelModel.keep_line n' k))).
+Proof. exact GraphicClosure.GraphicP_reducible_line. Qed.
+Print Assumptions C10_graphic_reducible_line.
+Theorem C10_graphic_submatrix :
+    forall (m n : nat) (M : mat) (rs cs : list nat),
+    wf_mat m n M = true ->
+    strictly_increasing rs = true ->
+    strictly_increasing cs = true ->
+    all_lt m rs = true ->
+    all_lt n cs = true ->
+    GraphicClosure.GraphicP m n M -> GraphicClosure.GraphicP (length rs) (length cs) (submat M rs cs).
+Proof. exact GraphicClosure.GraphicP_submat. Qed.
+Print Assumptions C10_graphic_submatrix.
